@@ -81,6 +81,14 @@ trie_node_alive(struct trie_node *node)
 	return QB_TRUE;
 }
 
+/*
+ * Children are visited in the order of the characters they stand for,
+ * compared as unsigned char like strcmp() does: TRIE_CHAR2INDEX() maps
+ * 0..127 to the indexes 127..0 and 128..255 to the indexes 255..128.
+ */
+#define TRIE_IDX_FIRST 127
+#define TRIE_IDX_NEXT(idx) (((idx) == 0) ? 255 : (((idx) == 128) ? -1 : (idx) - 1))
+
 static struct trie_node *
 trie_node_next(struct trie_node *node, struct trie_node *root, int all)
 {
@@ -94,8 +102,8 @@ keep_going:
 
 	/* child/outward
 	 */
-	for (i = c->num_children - 1; i >= 0; i--) {
-		if (c->children[i]) {
+	for (i = TRIE_IDX_FIRST; i >= 0; i = TRIE_IDX_NEXT(i)) {
+		if (i < c->num_children && c->children[i]) {
 			n = c->children[i];
 			break;
 		}
@@ -115,8 +123,9 @@ keep_going:
 	}
 	p = c;
 	do {
-		for (i = p->idx - 1; i >= 0; i--) {
-			if (p->parent->children[i]) {
+		for (i = TRIE_IDX_NEXT((int)p->idx); i >= 0; i = TRIE_IDX_NEXT(i)) {
+			if (i < p->parent->num_children &&
+			    p->parent->children[i]) {
 				n = p->parent->children[i];
 				break;
 			}
